@@ -631,15 +631,23 @@ func (d *protoDom) splitCopy(e *sched, st *sState, call *ssa.Call) []*sState {
 		return nil
 	}
 	room := dst.hi - dst.lo
-	if room <= 0 || room > 128 {
+	if room <= 0 {
 		return nil
 	}
 	lt := pOp("len", src.t)
 	if proveP(st.pfacts, lt, token.GEQ, pC(int64(room))) {
 		return nil
 	}
+	// a large window (a preimage assembled in a stack buffer) is split only when the path bounds the length itself
+	top := room
+	if room > 128 {
+		if !proveP(st.pfacts, lt, token.LEQ, pC(128)) {
+			return nil
+		}
+		top = 128
+	}
 	var cases []*sState
-	for c := 0; c <= room; c++ {
+	for c := 0; c <= top; c++ {
 		cs := st.clone()
 		if c < room {
 			cs.addFact(pFact{a: lt, op: token.EQL, b: pC(int64(c))})
